@@ -34,6 +34,12 @@ QUICK = [
     dict(mode='sigterm', children=[['coop', False, True], ['swallow', False, False], ['idle', True, True]], delay=0.0),
     dict(mode='terminate', children=[['swallow', True, True], ['swallow', True, True]], delay=0.15),
     dict(mode='sigterm', children=[['swallow', False, False], ['coop', True, True]], delay=0.05),
+    # the caller of terminate() loses patience while the server is still forcing its children one by one
+    dict(mode='terminate', children=[['swallow', False, False], ['swallow', False, False], ['swallow', False, False], ['coop', False, False]], server_timeout=1.5),
+    dict(mode='terminate', children=[['swallow', False, False], ['swallow', True, True], ['idle', False, True], ['swallow', False, False]], server_timeout=1.2),
+    # the server is stopped while workers are still inside the start-up handshake
+    dict(mode='terminate', children=[['coop', False, False]], starting=2, delay=0.2),
+    dict(mode='sigterm', children=[['idle', False, True]], starting=1, delay=0.2),
 ]
 
 
@@ -100,8 +106,17 @@ def oracle(cfg, out):
         else:
             if r.get('has_error') is not True:
                 return f'the {who} was stopped with the server but reports has_error={r.get("has_error")} (result {r.get("result")})'
-            if cfg.get('delay') is None and cfg['mode'] == 'terminate' and not in_ctx and state in ('coop', 'idle') and r.get('error') != 'WTE':
+            patient = 'server_timeout' not in cfg and sum(1 for c in cfg['children'] if c[0] == 'swallow') <= 2
+            if cfg.get('delay') is None and patient and cfg['mode'] == 'terminate' and not in_ctx and state in ('coop', 'idle') and r.get('error') != 'WTE':
                 return f'the {who} was able to report but its error is {r.get("error")!r}, not WorkerTerminatedError'
+    for r in out.get('starting', []):
+        if r.get('constructor') == 'hang':
+            return 'a worker that was being created when the server was stopped: its constructor is still blocked 12 s later'
+        if r.get('constructor') == 'returned':
+            if r.get('blocked') or r.get('raised'):
+                return f'a worker created while the server was being stopped: its parent blocks or raises ({r})'
+            if r.get('wait') is not True or r.get('alive') or r.get('has_error') is not True:
+                return f'a worker created while the server was being stopped is not dead with has_error True ({r})'
     return None
 
 
@@ -151,7 +166,7 @@ def main(tier, seed, replay=None):
             outs[i] = run_scenario(cfg)
     terms, keep = [], []
     for cfg, out in zip(cfgs, outs):
-        steady = cfg.get('delay') is None
+        steady = cfg.get('delay') is None and not cfg.get('starting')
         res.count('mode:' + cfg['mode']); res.count('steady' if steady else 'racing'); res.count(f'children:{len(cfg["children"])}')
         for c in cfg['children']:
             res.count('state:' + c[0] + (':ctx' if c[1] else ''))
